@@ -122,9 +122,12 @@ def run(st, tier, seed):
         if i % 4 == 0:
             b = directed_duplicate(rng)
             res.count("directed:duplicate-template-in-two-include-dirs")
-        elif i % 4 == 2:
+        elif i % 8 == 2:
             b = directed_nested_paths(rng)
             res.count("directed:nested-imports-relative-to-the-importing-file")
+        elif i % 8 == 6:
+            b = progen.both_orientation_bundle(rng)
+            res.count("directed:port-bound-in-both-orientations-in-a-nested-system")
         if b is None:
             continue
         if not getattr(b, "directed", False) and any(k.endswith(".sys") for k in b.texts) and rng.random() < 0.6:
